@@ -640,7 +640,10 @@ def _build(spec, wrap_custom, share):
     if t == "required":
         from d42.utils import make_required
         d = build(spec["d"], wrap_custom, share)
-        return make_required(d) if spec["keys"] is None else make_required(d, list(spec["keys"]))
+        if spec["keys"] is None:
+            return make_required(d)
+        # (the keys argument may be any collection: a list for an odd number of keys, a set for an even one)
+        return make_required(d, list(spec["keys"]) if len(spec["keys"]) % 2 else set(spec["keys"]))
     if t == "subst":
         from d42 import substitute
         return substitute(build(spec["s"], wrap_custom, share), spec["v"])
